@@ -408,7 +408,11 @@ def _get_scale_mean(
   """
   if elements_per_scale is not None:
     # Get the input shape
-    x_shape = x.shape.as_list()
+    # (the shape of a numpy array is a tuple which has no as_list() method)
+    try:
+      x_shape = x.shape.as_list()
+    except AttributeError:
+      x_shape = list(x.shape)
 
     # the unrolling below inserts axes: it needs non-negative scale axes
     scale_axis = _normalize_scale_axis(scale_axis, len(x_shape))
